@@ -36,6 +36,9 @@ Proof.
   - cbn [skip_size]. pose proof (cov_cons r rs n a). pose proof (cov_one r n a). pose proof (IH n a). unfold rsize. lia.
 Qed.
 
+Lemma run_le0 skip a n : count_free skip a n = 0 -> Z.of_nat n <= skip_size skip.
+Proof. intro H. pose proof (cov_le skip n a). lia. Qed.
+
 (* the value loop: exactly k free addresses in [a, e); on failure fewer than k in what is readable *)
 Lemma read_val_count skip : forall suf a k v e, read_val skip a suf k = Ok (v, e) ->
   a <= e /\ count_free skip a (Z.to_nat (e - a)) = Z.of_nat k.
@@ -65,37 +68,64 @@ Proof. intro H. apply read_val_count in H as [H1 H2]. pose proof (cov_le skip (Z
 Lemma read_val_fail_len skip suf a k e0 : read_val skip a suf k = Err e0 -> len suf < Z.of_nat k + skip_size skip.
 Proof. intro H. apply read_val_fail_count in H. pose proof (cov_le skip (length suf) a). unfold len. lia. Qed.
 
-(* one TLV: at most the header, 65535 value bytes and the reserved bytes are asked for *)
-Lemma read_tlv_d_bound em off skip : bytes_ok em -> 0 <= off ->
-  read_tlv_d em off skip <= off + 65540 + skip_size skip.
+Lemma cf_split skip a b c : a <= b <= c ->
+  count_free skip a (Z.to_nat (c - a)) = count_free skip a (Z.to_nat (b - a)) + count_free skip b (Z.to_nat (c - b)).
 Proof.
-  intros Hb Ho. pose proof (skip_size_nonneg skip) as Hs. unfold read_tlv_d.
+  intro H. replace (Z.to_nat (c - a)) with (Z.to_nat (b - a) + Z.to_nat (c - b))%nat by lia.
+  rewrite count_free_app. f_equal. f_equal. lia.
+Qed.
+(* addresses [off0, e) of which [off0, off) are all reserved and at most [free] are free: e is near off0 *)
+Lemma span_le skip off0 off e free : off0 <= off <= e -> count_free skip off0 (Z.to_nat (off - off0)) = 0 ->
+  count_free skip off (Z.to_nat (e - off)) <= free -> e <= off0 + free + skip_size skip.
+Proof.
+  intros H H0 Hf. pose proof (cov_le skip (Z.to_nat (e - off0)) off0) as C.
+  rewrite (cf_split skip off0 off e) in C by lia. lia.
+Qed.
+
+(* one TLV read at [off] behind a run of reserved bytes that began at [off0]: at most the header, 65535 value bytes
+   and the reserved bytes are asked for, counted from [off0] *)
+Lemma read_tlv_d_bound em off0 off skip : bytes_ok em -> 0 <= off0 <= off ->
+  count_free skip off0 (Z.to_nat (off - off0)) = 0 ->
+  read_tlv_d em off skip <= off0 + 65540 + skip_size skip.
+Proof.
+  intros Hb Ho Hrun. pose proof (skip_size_nonneg skip) as Hs. pose proof (run_le0 skip off0 (Z.to_nat (off - off0)) Hrun) as Hr.
+  assert (Hdr : forall j, 0 <= j <= 4 -> off + j <= off0 + 65540 + skip_size skip) by (intros; lia).
+  assert (Hfail : forall j, 0 <= j <= 3 -> len em <= off + j -> len em + 1 <= off0 + 65540 + skip_size skip) by (intros; lia).
+  unfold read_tlv_d.
   destruct (rd em off) as [t| | |] eqn:E0.
-  2-4: (unfold rd in E0; replace (off <? 0) with false in E0 by lia;
+  2-4: (apply (Hfail 0); [lia|]; unfold rd in E0; replace (off <? 0) with false in E0 by lia;
         destruct (nth_error em (Z.to_nat off)) eqn:En; try discriminate; apply nth_error_None in En; unfold len; lia).
-  destruct ((t =? 0) || (t =? 254)); [lia|]. apply rd_inv in E0 as [H0 _].
+  destruct ((t =? 0) || (t =? 254)); [apply (Hdr 1); lia|]. apply rd_inv in E0 as [H0 _].
   destruct (rd em (off + 1)) as [l0| | |] eqn:E1.
-  2-4: (unfold rd in E1; replace (off + 1 <? 0) with false in E1 by lia;
+  2-4: (apply (Hfail 1); [lia|]; unfold rd in E1; replace (off + 1 <? 0) with false in E1 by lia;
         destruct (nth_error em (Z.to_nat (off + 1))) eqn:En; try discriminate; apply nth_error_None in En; unfold len; lia).
   pose proof (rd_byte _ _ _ Hb E1) as B0. apply rd_inv in E1 as [H1 _].
+  (* the value loop from [voff] = off + 2 or off + 4 for k <= 65535 bytes *)
+  assert (Hval : forall voff k, off + 2 <= voff <= off + 4 -> voff <= len em -> Z.of_nat k <= 65535 ->
+            match read_val skip voff (skipn (Z.to_nat voff) em) k with
+            | Ok (_, e) => Z.max voff e | _ => len em + 1 end <= off0 + 65540 + skip_size skip).
+  { intros voff k Hv Hlen Hk.
+    assert (Hh : count_free skip off (Z.to_nat (voff - off)) <= 4) by (pose proof (count_free_bounds skip (Z.to_nat (voff - off)) off); lia).
+    destruct (read_val skip voff (skipn (Z.to_nat voff) em) k) as [[v e]| | |] eqn:E.
+    - apply read_val_count in E as [Hle Hc].
+      assert (e <= off0 + (4 + Z.of_nat k) + skip_size skip); [|lia].
+      apply (span_le skip off0 off e); [lia | exact Hrun |]. rewrite (cf_split skip off voff e) by lia. lia.
+    - apply read_val_fail_count in E. rewrite skipn_length in E.
+      assert (len em <= off0 + (4 + Z.of_nat k - 1) + skip_size skip); [|lia].
+      apply (span_le skip off0 off (len em)); [lia | exact Hrun |]. rewrite (cf_split skip off voff (len em)) by lia.
+      unfold len in *. replace (Z.to_nat (Z.of_nat (length em) - voff)) with (length em - Z.to_nat voff)%nat by lia. lia.
+    - destruct (read_val_cases skip (skipn (Z.to_nat voff) em) voff k) as [[r R] | R]; rewrite R in E; discriminate.
+    - destruct (read_val_cases skip (skipn (Z.to_nat voff) em) voff k) as [[r R] | R]; rewrite R in E; discriminate. }
   destruct (l0 =? 255).
   - destruct (rd em (off + 2)) as [h| | |] eqn:E2.
-    2-4: (unfold rd in E2; replace (off + 2 <? 0) with false in E2 by lia;
+    2-4: (apply (Hfail 2); [lia|]; unfold rd in E2; replace (off + 2 <? 0) with false in E2 by lia;
           destruct (nth_error em (Z.to_nat (off + 2))) eqn:En; try discriminate; apply nth_error_None in En; unfold len; lia).
     destruct (rd em (off + 3)) as [l| | |] eqn:E3.
-    2-4: (unfold rd in E3; replace (off + 3 <? 0) with false in E3 by lia;
+    2-4: (apply (Hfail 3); [lia|]; unfold rd in E3; replace (off + 3 <? 0) with false in E3 by lia;
           destruct (nth_error em (Z.to_nat (off + 3))) eqn:En; try discriminate; apply nth_error_None in En; unfold len; lia).
     pose proof (rd_byte _ _ _ Hb E2). pose proof (rd_byte _ _ _ Hb E3). apply rd_inv in E3 as [H3 _].
-    destruct (read_val skip (off + 4) (skipn (Z.to_nat (off + 4)) em) (Z.to_nat (256 * h + l))) as [[v e]| | |] eqn:E.
-    + apply read_val_end in E. lia.
-    + apply read_val_fail_len in E. unfold len in *. rewrite skipn_length in E. lia.
-    + destruct (read_val_cases skip (skipn (Z.to_nat (off + 4)) em) (off + 4) (Z.to_nat (256 * h + l))) as [[r R] | R]; rewrite R in E; discriminate.
-    + destruct (read_val_cases skip (skipn (Z.to_nat (off + 4)) em) (off + 4) (Z.to_nat (256 * h + l))) as [[r R] | R]; rewrite R in E; discriminate.
-  - destruct (read_val skip (off + 2) (skipn (Z.to_nat (off + 2)) em) (Z.to_nat l0)) as [[v e]| | |] eqn:E.
-    + apply read_val_end in E. lia.
-    + apply read_val_fail_len in E. unfold len in *. rewrite skipn_length in E. lia.
-    + destruct (read_val_cases skip (skipn (Z.to_nat (off + 2)) em) (off + 2) (Z.to_nat l0)) as [[r R] | R]; rewrite R in E; discriminate.
-    + destruct (read_val_cases skip (skipn (Z.to_nat (off + 2)) em) (off + 2) (Z.to_nat l0)) as [[r R] | R]; rewrite R in E; discriminate.
+    apply (Hval (off + 4) (Z.to_nat (256 * h + l))); lia.
+  - apply (Hval (off + 2) (Z.to_nat l0)); lia.
 Qed.
 
 (* control TLVs reserve at most 256 bytes each *)
@@ -192,10 +222,15 @@ Proof.
       cbn [count_free]. rewrite Es. lia.
     - destruct Hc as [Hc | Hc]; [discriminate|]. exists off. repeat split; try lia.
       replace (Z.to_nat (off + 1 - off)) with 1%nat by lia. cbn [count_free]. rewrite Es. lia. }
-  pose proof (read_tlv_d_bound em off skip Hb ltac:(lia)) as Hr.
+  assert (Hrun : exists off0, 16 <= off0 < dend /\ off0 <= off /\ count_free skip off0 (Z.to_nat (off - off0)) = 0).
+  { unfold winv in Hw. destruct inner.
+    - destruct Hw as (off0 & H0 & _ & Hle & Hcf). exists off0. auto.
+    - destruct Hc as [Hc | Hc]; [discriminate|]. exists off. rewrite Z.sub_diag. cbn. lia. }
+  destruct Hrun as (off0 & H0 & Hle0 & Hcf0).
+  pose proof (read_tlv_d_bound em off0 off skip Hb ltac:(lia) Hcf0) as Hr.
   assert (Hd' : Z.max d (read_tlv_d em off skip) <= t2_demand_bound dend) by (unfold t2_demand_bound, SB in *; lia).
   assert (H5 : 5 * len skip <= off - 16).
-  { unfold winv in Hw. destruct inner; [destruct Hw as (off0 & ? & ? & ? & _); lia | exact Hw]. }
+  { unfold winv in Hw. destruct inner; [destruct Hw as (off1 & ? & ? & ? & _); lia | exact Hw]. }
   destruct (read_tlv_cases em off skip Hb ltac:(lia)) as [(t & l & v & e & E & Hl & Hv & He) | ->]; [|exact Hd'].
   rewrite E. pose proof (read_tlv_bytes _ _ _ _ _ _ _ Hb E) as Hbv.
   destruct (t2_dispatch skip t l v) as [[skip'| |]| | |] eqn:Ed; try exact Hd'.
@@ -223,7 +258,7 @@ Qed.
 (* ... and so is the number of commands: one READ per 16 bytes, two SECTOR SELECT packets per KiB, 3 tries for the last *)
 Theorem t2_read_cmds em b14 : bytes_ok em -> rd em 14 = Ok b14 ->
   t2_cmds_max (snd (t2_read_d em)) <= t2_cmds_max (t2_demand_bound (b14 * 8 + 16)) /\
-  t2_cmds_max (t2_demand_bound (b14 * 8 + 16)) <= 17856.
+  t2_cmds_max (t2_demand_bound (b14 * 8 + 16)) <= 11108.
 Proof.
   intros Hb E14. pose proof (t2_read_demand_bound em b14 Hb E14) as H. pose proof (rd_byte _ _ _ Hb E14) as B14.
   unfold t2_cmds_max, t2_demand_bound in *. split; lia.
